@@ -271,8 +271,11 @@ class Kernel:
         self.forced = set()        # descriptors whose lock was granted by an injected kernel fault
         self.unlinked_held = []    # rule: a lock file that some live descriptor holds a flock on is never unlinked
         self.fileops = set()       # kinds of file operations seen on lock files
+        self.norm = None           # optional path normalisation (deployments: several spellings of one folder)
 
     def bind(self, path):
+        if self.norm is not None:        # identity of the FILE, not of its spelling
+            path = self.norm(path)
         if path not in self.paths:
             self.paths[path] = self.next_ino
             self.next_ino += 1
@@ -714,6 +717,179 @@ class FileSystem:
             raise Violation("deadlock: no thread can take a step, unfinished: %r" % [w.idx for w in s.workers if not w.done])
 
 
+# ---------------------------------------------------------------------------------- deployments: instances of one store
+# A deployment = the [storage] configurations of several multifilesystem instances (processes) that serve ONE
+# filesystem_folder.  A configuration is a JSON-friendly dict:
+#   cache  "" | name            filesystem_cache_folder (a folder beside the data folder; "" = not configured)
+#   sub    "000".."111"         use_cache_subfolder_for_item / _history / _synctoken
+#   mtime  0 | 1                use_mtime_and_size_for_item_cache
+#   umask  "" | "0077" | ...    folder_umask
+#   spell  "" | "/" | "/." ...  suffix appended to the spelling of filesystem_folder (same folder, written differently)
+CONF_DEFAULT = dict(cache="", sub="000", mtime=0, umask="", spell="")
+
+
+def conf_norm(c):
+    d = dict(CONF_DEFAULT)
+    d.update(c or {})
+    return d
+
+
+def storage_options(base, c):
+    """[storage] section of the instance `c` of the deployment living under `base` (creates the folders)."""
+    c = conf_norm(c)
+    o = {"type": "multifilesystem", "filesystem_folder": os.path.join(base, "data") + c["spell"], "_filesystem_fsync": "False",
+         "use_cache_subfolder_for_item": str(c["sub"][0] == "1"), "use_cache_subfolder_for_history": str(c["sub"][1] == "1"),
+         "use_cache_subfolder_for_synctoken": str(c["sub"][2] == "1"), "use_mtime_and_size_for_item_cache": str(bool(c["mtime"]))}
+    # an installed store: the folders exist (with folder_umask set the constructor cannot create them itself: it calls
+    # _makedirs_synced before it has parsed the umask)
+    os.makedirs(os.path.join(base, "data", "collection-root"), exist_ok=True)
+    os.makedirs(os.path.join(base, "data", "collection-cache"), exist_ok=True)
+    if c["cache"]:
+        o["filesystem_cache_folder"] = os.path.join(base, c["cache"])
+        os.makedirs(os.path.join(base, c["cache"], "collection-cache"), exist_ok=True)
+    if c["umask"]:
+        o["folder_umask"] = c["umask"]
+    return o
+
+
+def base_deployments():
+    """The legal ways two instances can differ while sharing the data folder (systematic part of the matrix)."""
+    A = dict(cache="cache-a", sub="100")
+    return [
+        [{}, {}],                                                        # twice the default configuration
+        [A, dict(cache="cache-b", sub="100")],                           # node-local cache folders (documented set-up)
+        [A, dict(A)],                                                    # one shared cache folder
+        [A, {}],                                                         # only one instance has a cache folder
+        [dict(cache="cache-a", sub="111"), dict(cache="cache-b", sub="010", mtime=1)],
+        [dict(cache="cache-a", sub="000"), dict(cache="cache-a", sub="101")],
+        [dict(umask="0077"), dict(umask="0027", cache="cache-b")],
+        [dict(spell="/"), dict(spell="/.", cache="cache-a", sub="100")],  # the same folder spelled differently
+    ]
+
+
+def random_conf(rng):
+    return dict(cache=rng.choice(["", "cache-a", "cache-b", "cache-c"]), sub="".join(rng.choice("01") for _ in range(3)),
+                mtime=rng.choice([0, 1]), umask=rng.choice(["", "", "0077", "0022"]), spell=rng.choice(["", "", "/", "/.", "/../data"]))
+
+
+def real_lock_path(base, c):
+    """The file the storage lock of instance `c` really opens and flock()s: the REAL Storage is built by the real
+    constructor and its lock is taken once in mode r with recording stand-ins for open / flock in radicale.pathutils.
+    Returns (path handed to open, filesystem_folder, filesystem_cache_folder) as the code sees them."""
+    import logging
+    from radicale import config, pathutils
+    from radicale.storage import multifilesystem
+    logging.getLogger("radicale").setLevel(logging.CRITICAL)
+    conf = config.load()
+    conf.update({"storage": storage_options(base, c)}, "c11", privileged=True)
+    st = multifilesystem.Storage(conf)
+    opened, flocked = [], []
+    real_fcntl = pathutils.fcntl
+
+    def rec_open(path, *a, **k):
+        f = open(path, *a, **k)
+        opened.append((f.fileno(), str(path)))
+        return f
+
+    class RecFcntl:
+        def __getattr__(self, name):
+            return getattr(real_fcntl, name)
+
+        def flock(self, fd, cmd):
+            flocked.append(fd)
+            return real_fcntl.flock(fd, cmd)
+    had_open = "open" in pathutils.__dict__
+    saved_open = pathutils.__dict__.get("open")
+    pathutils.open, pathutils.fcntl = rec_open, RecFcntl()
+    try:
+        with st.acquire_lock("r", "user"):
+            pass
+    finally:
+        pathutils.fcntl = real_fcntl
+        if had_open:
+            pathutils.open = saved_open
+        else:
+            del pathutils.open
+    paths = [path for fd, path in opened if fd in flocked]
+    return (paths[0] if len(paths) == 1 else "<%d files flocked: %r>" % (len(paths), paths),
+            conf.get("storage", "filesystem_folder"), conf.get("storage", "filesystem_cache_folder"))
+
+
+class StoreSystem(FileSystem):
+    """Several real multifilesystem.Storage objects (one per simulated process) built by the real constructor from the
+    configurations of a deployment: all of them serve ONE filesystem_folder.  The lock under test is the object the
+    server uses (`storage._lock`, entered through `storage.acquire_lock`); the Kernel keys the flock table by the FILE
+    (normalised path) each instance opens.  progs: ("deploy", [(proc, [(mode, nq)])...], [conf of proc 0, ...]).
+    Model: coq/Model/RwLockFile.v (one kernel lock for all processes), justified by Model/C11LockIdent.v."""
+    kind = "store"
+
+    def __init__(self, progs):
+        import logging
+        import tempfile
+        from radicale import config
+        logging.getLogger("radicale").setLevel(logging.CRITICAL)
+        _, threads, confs = progs
+        threads = [(p, [tuple(c) for c in prog]) for p, prog in threads]
+        self.progs = threads
+        self.confs = [conf_norm(c) for c in confs]
+        self.tmp = tempfile.mkdtemp(prefix="rv-c11store-")
+        self.kernel = Kernel()
+        self.kernel.norm = os.path.realpath
+        self.patch = Patched(self.kernel)
+        self.patch.__enter__()
+        self.sched = Scheduler()
+        CoopLock.sched = self.sched
+        self.fault_mode = False
+        from radicale.storage import multifilesystem
+        self.storages = []
+        nprocs = 1 + max([p for p, _ in threads] + [0])
+        assert nprocs <= len(self.confs)
+        for p in range(nprocs):
+            conf = config.load()
+            conf.update({"storage": storage_options(self.tmp, self.confs[p])}, "c11", privileged=True)
+            self.storages.append(multifilesystem.Storage(conf))
+        self.locks = [st._lock for st in self.storages]
+        self.sched.start([self._body(p, prog) for p, prog in threads])
+
+    def close(self):
+        import shutil
+        FileSystem.close(self)
+        shutil.rmtree(self.tmp, ignore_errors=True)
+
+    def _body(self, p, prog):
+        storage = self.storages[p]
+        lock = storage._lock
+
+        def body(w):
+            w.proc = p
+            for cyc in prog:
+                mode, nq = cyc[0], cyc[1]
+                w.mode = mode
+                w.phase = "acquire"
+                w.seen_now = None
+                w.fail = 0
+                cm = storage.acquire_lock(mode, "user")
+                cm.__enter__()
+                w.phase = "body"
+                for _ in range(nq):
+                    w.seen = w.seen_now = lock.locked
+                w.phase = "release"
+                cm.__exit__(None, None, None)
+                w.phase = "idle"
+        return body
+
+    def monitor(self):
+        k = self.kernel
+        live = [(fd, ino, m) for fd, (ino, m) in k.held.items()]
+        if len(live) > 1 and any(m == "w" for _, _, m in live):
+            rel = lambda path: os.path.relpath(k.norm(path), k.norm(self.tmp))     # noqa: E731
+            raise Violation("instances serving one filesystem_folder hold its storage lock at the same time: %s" % ", ".join(
+                "thread %s of instance %d %r holds LOCK_%s on %s" % (
+                    k.fd_owner[fd], self.sched.workers[k.fd_owner[fd]].proc, self.confs[self.sched.workers[k.fd_owner[fd]].proc],
+                    "EX" if m == "w" else "SH", rel(k.fd_path[fd])) for fd, ino, m in live))
+        FileSystem.monitor(self)
+
+
 class DictSystem:
     """The real multifilesystem_nolock.LockDict; progs: per thread a list of keys."""
     kind = "dict"
@@ -825,7 +1001,7 @@ class DictSystem:
                 raise Violation("key %r: arrival order %r but served in order %r" % (key, want, got))
 
 
-SYSTEMS = {"cond": CondSystem, "file": FileSystem, "dict": DictSystem}
+SYSTEMS = {"cond": CondSystem, "file": FileSystem, "dict": DictSystem, "store": StoreSystem}
 
 
 def run_schedule(kind, progs, schedule, monitor=True, extend=False, choose=None):
